@@ -28,7 +28,8 @@
    (and, for the repaired order, also inside the handler), that the handler never runs with the condition
    false and that a rise always fires; the pinned order (flag stored after the handler from a value computed
    before it) must violate SignalOK.  Conformance: a real Apbp object whose handler re-enters at random
-   (harness/drivers/reent_rec.cpp), every step validated by TLC (ApbpReentTrace.tla, 16-bit width).
+   (harness/drivers/reent_rec.cpp), every step validated by TLC (ApbpReentTrace.tla, 16-bit width).  Apalache proves the
+   flag invariant inductive for the repaired order at 16 bits and unbounded nesting (ApbpReentInd.tla; ApbpReentIndSame).
 
 Defect D3 (Apbp::MaskSemaphore neither recomputes the signal flag nor interrupts on a rise).  Until the
 repair is in the tree under test the recorded executions are validated against Trace_Apbp_pinned.cfg and a
@@ -97,6 +98,11 @@ def run(ck):
     r = ck.mc('ApbpReent', 'MC_ApbpReent_pinned.cfg', workers=2, must_hold=False, coverage=False)
     if r.violated != 'SignalOK':
         raise vlib.Infra('the pinned re-entrancy model no longer violates SignalOK (model drifted)')
+    # the repaired order for the real width and any nesting depth: inductive invariant by Apalache (sets of one-bits instead of
+    # bit operators; ApbpReentIndSame lets TLC compare the two readings for every pair of words at width 6)
+    ck.apalache('ApbpReentInd', 'MC_ApbpReentInd.cfg', 'Inv', length=0, timeout=900)
+    ck.apalache('ApbpReentInd', 'MC_ApbpReentInd_step.cfg', 'Inv', length=1, timeout=900)
+    ck.mc('ApbpReentIndSame', 'MC_ApbpReentIndSame.cfg', workers=2, coverage=False)
     rfiles = [os.path.join(ck.work, 'reent_%d.ndjson' % i) for i in range(ck.pick(4, 16))]
     ck.run_jobs(['%s --seed %d --n %d --out %s' % (ck.bin('reent_rec'), ck.seed * 1000 + i, 300, f) for i, f in enumerate(rfiles)])
     ck.validate_traces('ApbpReentTrace', 'Trace_ApbpReent.cfg', rfiles, sig_prefix='reent')
